@@ -67,11 +67,12 @@ ST2 = ["steinberg", 8.93, 1.0e9, 2.02, 0.47, 3.94e5, 1.489, 0.3, -0.2]
 # copper-like set (Steinberg's table, linear Us-up fit)
 ST3 = ["steinberg", 8.93, 0.0, 2.02, 0.47, 3.94e5, 1.489, 0.0, 0.0]
 
-TOL_CLOSURE = 1e-10   # round trips, relative to |value| + EOS scale: measured 6.5e-15
-TOL_PARTIAL = 1e-6    # analytic partial vs central difference: measured 1.1e-9 (defects: 0.99 .. 2.0)
-TOL_JAC = 1e-6        # F_prime entry vs FD: measured 3.0e-10 (defects: 1.0 .. 2.0)
-TOL_INV = 1e-9        # (F_prime_inv @ F_prime - I), variable-scaled: measured 2.7e-12
-TOL_JUMP = 1e-5       # jump conditions, |sum|/sum|.|: measured 2.7e-8 where convergence was to the physical root
+TOL_CLOSURE = 1e-10   # round trips, relative to |value| + EOS scale: measured 2.8e-14 (thorough lattice)
+TOL_PARTIAL = 1e-6    # analytic partial vs central difference: measured 2.0e-9 (recorded defects and seeded changes: 0.05 .. 2.0)
+TOL_JAC = 1e-6        # F_prime entry vs FD: measured 3.2e-9 (recorded defects and seeded changes: 8.6e-4 .. 2.0)
+TOL_INV = 1e-9        # (F_prime_inv @ F_prime - I), variable-scaled: measured 1.7e-11 (seeded change: 0.55)
+TOL_JUMP = 1e-5       # jump conditions, |sum|/(sum|.| + scale): measured 1.6e-8 (2.0e-13 once pressure_noh_residual.F_prime[2,0] is repaired);
+                      # 10x the 1e-6 the solver's own stopping rule guarantees at unit scale; seeded changes: 0.59 .. 1.0
 FD_REL = (1e-2, 1e-3, 1e-4)
 
 
